@@ -385,7 +385,30 @@ func runRoots(c *core.Ctx) {
 			return false
 		}
 		ts := mu.Map.Type().String()
-		return strings.HasPrefix(ts, "map[") && strings.HasSuffix(ts, "types.Descriptor") && !strings.Contains(ts, "[]")
+		if !(strings.HasPrefix(ts, "map[") && strings.HasSuffix(ts, "types.Descriptor") && !strings.Contains(ts, "[]")) {
+			return false
+		}
+		// keyed by the subject, not by the entry's own digest: `subjects[d.Digest] = d` attaches the response to itself
+		var owner types.Type
+		var fname string
+		switch k := an.Strip(mu.Key).(type) {
+		case *ssa.Field:
+			owner = k.X.Type()
+			if st, ok := owner.Underlying().(*types.Struct); ok {
+				fname = st.Field(k.Field).Name()
+			}
+		case *ssa.UnOp:
+			if fa, ok := k.X.(*ssa.FieldAddr); ok && k.Op == token.MUL {
+				owner = an.Deref(fa.X.Type())
+				if st, ok := owner.Underlying().(*types.Struct); ok {
+					fname = st.Field(fa.Field).Name()
+				}
+			}
+		}
+		if owner != nil && fname == "Digest" && isNamed(owner, getRoles(c).TypesPath, "Descriptor") {
+			return false
+		}
+		return true
 	}
 	var outs []outcome
 	nPaths := 0
